@@ -61,7 +61,8 @@ def names_grow(s):
             loops={0: LoopSpec(invariant=[f"self.{counter} >= old(self.{counter})", f"unchanged({setf!r}, 'NameAuthority.{names}')"],
                                modifies=[f"NameAuthority.{counter}"])},
             ensures=[f"result not in box(self.{names})",                 # never a name registered or generated before
-                     f"self.{counter} > old(self.{counter})", f"unchanged({setf!r}, 'NameAuthority.{names}')"],
+                     # the property asks that counters never shrink (a strict increase is an artefact of the loop shape)
+                     f"self.{counter} >= old(self.{counter})", f"unchanged({setf!r}, 'NameAuthority.{names}')"],
             modifies=[f"NameAuthority.{counter}"]))
     # register_or_name_*: attribute `name` of the argument is modelled by the field _name (getter/setter)
     class_name_prop(eng, "Value")
@@ -85,7 +86,7 @@ def names_grow(s):
         eng.functions[f"{NA}.NameAuthority._unique_{kind}_name"] = FnDecl(
             f"{NA}.NameAuthority._unique_{kind}_name", "contract", NA, f"NameAuthority._unique_{kind}_name",
             requires=[f"nonnull(self.{names})"],
-            ensures=[f"result not in box(self.{names})", f"self.{counter} > old(self.{counter})"], ret=STR,
+            ensures=[f"result not in box(self.{names})", f"self.{counter} >= old(self.{counter})"], ret=STR,
             modifies=[f"NameAuthority.{counter}"])
 
 
